@@ -494,10 +494,31 @@ fn sw(s: &str) -> usize {
 
 /// What `sanitize_terminal_snippet_preserve_len` documents: C0 (except \n, \t) and DEL become a
 /// space, C1 becomes NBSP.
+/// What the library shows in place of a C0 / DEL character of the source line. The property
+/// fixes only that no control character is shown, not the placeholder (a blank up to and
+/// including the snapshot, `?` since the fix of the misplaced marker on lines that start with
+/// many control characters), so it is read off one rendering; anything that is not a single
+/// printable ASCII character falls back to a blank, and the comparison then fails as it should.
+fn c0_placeholder() -> char {
+    static P: std::sync::OnceLock<char> = std::sync::OnceLock::new();
+    *P.get_or_init(|| {
+        let shown = match serde_saphyr::from_str::<i32>("\u{1}zz") {
+            Err(e) => e.to_string(),
+            Ok(_) => String::new(),
+        };
+        shown
+            .lines()
+            .find_map(|l| l.strip_prefix("1 | "))
+            .and_then(|l| l.chars().next())
+            .filter(|c| c.is_ascii_graphic() || *c == ' ')
+            .unwrap_or(' ')
+    })
+}
+
 fn sanitize_char(ch: char) -> char {
     let u = ch as u32;
     if (u < 0x20 && ch != '\n' && ch != '\t') || u == 0x7f {
-        ' '
+        c0_placeholder()
     } else if (0x80..=0x9f).contains(&u) {
         '\u{a0}'
     } else {
@@ -1849,6 +1870,26 @@ impl Property for C17 {
         }
         Ok(())
     }
+    /// libFuzzer input: target, entry point, options, then the input text (lossy UTF-8, <= 400 bytes)
+    fn fuzz_decode(data: &[u8]) -> Option<(&'static str, Case, bool)> {
+        let mut b = engine::Bytes::new(data);
+        const TARGETS: [Target; 14] = [
+            Target::Strict, Target::Enum, Target::MapI32, Target::VecI32, Target::I32, Target::Bool, Target::Str, Target::Char,
+            Target::Wrap, Target::Reflect, Target::Untyped, Target::Alias, Target::Garde, Target::Validator,
+        ];
+        let target = b.pick(&TARGETS);
+        let entry = b.pick(&ENTRIES);
+        let flags = b.u8();
+        let mut opts = opts_with(b.pick(&RADII), flags & 7 != 0);
+        opts.no_schema = flags & 8 != 0;
+        opts.angle = flags & 16 != 0;
+        opts.dup = [vcheck::opts::Dup::Error, vcheck::opts::Dup::First, vcheck::opts::Dup::Last][(flags >> 5) as usize % 3];
+        let text = String::from_utf8_lossy(b.take(400)).into_owned();
+        let (entry, _) = safe_entry(&text, entry);
+        let c = Case { text, target, entry, opts };
+        let nt = classify(&c, &Tally::default());
+        Some(("fuzz-text", c, nt))
+    }
     fn generate(ctx: &mut Ctx<Self>) {
         gen_all(ctx)
     }
@@ -2184,6 +2225,31 @@ fn gen_all(ctx: &mut Ctx<C17>) {
     }
     t.flush(ctx);
 
+    // --- 5b. error line that starts with a run of control characters / blanks -------------------------
+    // (found by the libFuzzer tier: control characters are shown by a placeholder; when that was
+    // a blank, the renderer's trimming of more than 20 leading blanks moved the marker into the gutter)
+    {
+        let mut idx = 0u64;
+        for filler in ['\u{e}', '\u{1}', '\u{7f}', '\u{1b}'] {
+            for n in [1usize, 19, 20, 21, 22, 40, 65, 66, 200] {
+                for tail in ["", " x", "  ", "\u{0}", ": [", "\nnext: 1\n"] {
+                    for target in [Target::I32, Target::MapI32, Target::Strict, Target::Garde] {
+                        for (entry, crop) in [(Entry::Str, 64usize), (Entry::Str, 5), (Entry::Reader7, 64), (Entry::Slice, usize::MAX)] {
+                            idx += 1;
+                            if !ctx.mine(idx) {
+                                continue;
+                            }
+                            let text: String = std::iter::repeat_n(filler, n).chain(tail.chars()).collect();
+                            emit(ctx, &t, "control-run-at-line-start", text, target, entry, opts_with(crop, true));
+                        }
+                    }
+                }
+            }
+        }
+        ctx.subspace("4 control characters x 9 run lengths x 6 tails x 4 targets x 4 (entry, radius)", idx, true);
+    }
+    t.flush(ctx);
+
     // --- 6. random token documents and mutated seeds ------------------------------------------------
     {
         let targets = vec![
@@ -2204,8 +2270,8 @@ fn gen_all(ctx: &mut Ctx<C17>) {
                 Case { text, target, entry, opts }
             },
         );
-        let tally = Tally::default();
-        ctx.run_strategy("token-soup", 1, ctx.tier.pick(22_000, 400_000), &strat, |c| classify(c, &tally));
+        let tally = std::rc::Rc::new(Tally::default());
+        ctx.run_strategy("token-soup", 1, ctx.tier.pick(22_000, 400_000), &strat, { let t = tally.clone(); move |c| classify(c, &t) });
         tally.flush(ctx);
 
         // mutated seeds: a reflecting or structured document with a few token-level edits
@@ -2256,7 +2322,7 @@ fn gen_all(ctx: &mut Ctx<C17>) {
                 Case { text, target: *target, entry, opts }
             },
         );
-        ctx.run_strategy("mutated-seeds", 2, ctx.tier.pick(22_000, 400_000), &strat, |c| classify(c, &tally));
+        ctx.run_strategy("mutated-seeds", 2, ctx.tier.pick(22_000, 400_000), &strat, { let t = tally.clone(); move |c| classify(c, &t) });
         tally.flush(ctx);
 
         // random long line: position, length, radius all random (complements the fixed sweep)
@@ -2278,7 +2344,7 @@ fn gen_all(ctx: &mut Ctx<C17>) {
                 let (entry, _) = safe_entry(&text, entry);
                 Case { text, target, entry, opts: opts_with(crop, true) }
             });
-        ctx.run_strategy("long-lines-random", 3, ctx.tier.pick(6_000, 100_000), &strat, |c| classify(c, &tally));
+        ctx.run_strategy("long-lines-random", 3, ctx.tier.pick(6_000, 100_000), &strat, { let t = tally.clone(); move |c| classify(c, &t) });
         tally.flush(ctx);
     }
     NOTE_TALLY.with(|n| n.flush(ctx));
@@ -2296,4 +2362,10 @@ fn main() {
         return;
     }
     engine::main::<C17>()
+}
+
+/// entry point of the libFuzzer target `fuzz/fuzz_targets/c17.rs`
+#[allow(dead_code)]
+pub fn fuzz(data: &[u8]) {
+    engine::fuzz_one::<C17>(data)
 }
